@@ -249,6 +249,36 @@ def run_extra(cx):
             ok = g is not None
         cx.ob('GUARD', 'DirectionFwd::orient_camber_line', ok, 'the stations are reversed exactly when the first centre is behind the last one along the forward direction', where=b.file,
               found='; '.join(cx.show_guards(b, rv[0].bb))[:500] if rv else None)
+    b = cx.fn('airfoil::camber::camber_detect_upper_dir')
+    if b:
+        # the upper side is where the camber line deviates MOST from its chord: an arg-max over every resampled point
+        from vpa import term as T
+        PTS = '(call *Curve2::points (unwrap (call *Curve2::resample (param camber_line) _)))'
+        CHORD = '(unwrap (call Result::map_err (call *Segment2::try_new (call *point (call *Curve2::at_front (param camber_line))) (call *point (call *Curve2::at_back (param camber_line)))) _))'
+        ok = False
+        for bi in b.live:
+            if bi not in b.reachable():
+                continue
+            for si, st in enumerate(b.blocks[bi]['stmts']):
+                if not st['pl']['p'] and st['rv']['k'] == 'agg':
+                    v = simplify(b.dag().rvalue(st['rv'], bi, si))
+                    if match(f'(agg *Option::Some (0 (itervar {PTS})))', v) is not None:
+                        g = [a for a, p in cx.guards(b, bi) if p and a[0] == 'lt']
+                        ok = any(match(f'(lt (anyphi (loop)) (call *points::dist (itervar {PTS}) (call *projected_point {CHORD} (itervar {PTS}))))', a) is not None for a in g)
+        okx, why = T.exhaustive_loops(cx, b)
+        cx.ob('EXPR', 'camber_detect_upper_dir:scan', ok and okx,
+              'the reference point is the running maximum, over EVERY resampled camber point (the scan is never left early), of the distance to its projection on the chord front-back', where=b.file,
+              found='; '.join(why) if why else None)
+    b = cx.fn('airfoil::edges::OpenIntersectGap::find_edge')
+    if b:
+        mins = [cx.call(s) for s in b.calls('f64::min')]
+        SP = '(unwrap (call *OrientedCircles::end_sp _))'
+        CAP = '(unwrap (call *Segment2::try_new (call *point (call *Curve2::at_front (param section))) (call *point (call *Curve2::at_back (param section)))))'
+        ok = any(match(f'(call f64::min (call *scalar_projection {SP} (field a {CAP})) (call *scalar_projection {SP} (field b {CAP})))', m) is not None or
+                 match(f'(call f64::min (call *scalar_projection {SP} (field b {CAP})) (call *scalar_projection {SP} (field a {CAP})))', m) is not None for m in mins)
+        cx.ob('EXPR', 'OpenIntersectGap::find_edge:step', ok,
+              'the step into the open gap is bounded by the NEARER of the two free ends of the section (min of the projections of end_cap.a and end_cap.b on the last station): symmetric under reversing the section',
+              where=b.file, found=mins[0] if mins else None)
     b = cx.fn('airfoil::helpers::find_tmax_circle')
     if b:
         # a running maximum over all stations: the candidate replaces the best only under diameter > best so far
